@@ -165,6 +165,11 @@ def run_case(case, res):
                         if isinstance(lines, tuple):
                             bad.append(f"to_dot raised {lines!r}")
                         else:
+                            if unique and add_self:
+                                again = attempt(lambda: list(t.to_dot(add_root=add_self, unique_nodes=unique)) if isroot
+                                                else list(start.to_dot(add_self=add_self, unique_nodes=unique)))
+                                if again != lines:
+                                    bad.append("to_dot() called twice gives different output")
                             gn, ge = parse_dot(lines)
                             res.observe("dot_graphs", [sorted(gn), sorted(map(str, ge.items()))])
                             if set(gn) != exp_nodes:
